@@ -11,10 +11,11 @@ create / update / delete path, **with `fixes/C20-kind-change.patch` applied**), 
 * every iteration order of the Go maps (the order of each snapshot list; every oracle `P.order`
   that permutes the event maps),
 * every fault assignment `P.panics` (which Init / Inherit / Close calls panic),
-* every consumer shape (`filter`, `slot`, `createChecks`), so both the supervisor and the
-  traffic controller.
+* every consumer shape (`filter`, `slot`, `createChecks`, `namespaced`), so both the supervisor and
+  the traffic controller with its namespace bookkeeping (`_cleanSpace`).
 
-`HistWF` only says that a snapshot has unique keys (it is a Go map).
+`HistWF` only says that a snapshot has unique keys (it is a Go map); `Params.WF` that the `range`
+oracles permute and that a namespaced consumer has the two maps `_cleanSpace` probes.
 Helper lemmas are in `Proofs/Lifecycle.lean`; the declarative per-name specification
 (`regNext`, `view`, `wordStep`, `specWord`, the automaton `Auto`) is in `Spec/Lifecycle.lean`.
 -/
@@ -34,7 +35,7 @@ def held (P : Params) (h : List Item) (s : Nat) (n : Name) : Option Entity :=
 exactly the specification's word: one `init` when the name appears (in the consumer's categories),
 one `inherit` — with the previous live object as predecessor — per change of its spec, one `close`
 when it disappears, `close` + `init` when its kind changes, nothing when nothing changes. -/
-theorem exactly_once (P : Params) (ok : P.OrderOK) (h : List Item) (wf : HistWF h) (n : Name) :
+theorem exactly_once (P : Params) (ok : P.WF) (h : List Item) (wf : HistWF h) (n : Name) :
     callsOn P h n = specWord P n 0 false none h := by
   have := (run_spec P ok n h Sys.init (inv_init P) wf).1
   simpa [callsOn, Sys.init, callsOf] using this
@@ -42,7 +43,7 @@ theorem exactly_once (P : Params) (ok : P.OrderOK) (h : List Item) (wf : HistWF 
 /-- The same, from any reachable state, for one more snapshot or attachment: the calls owed to `n`
 are `wordStep` between the consumer's old and new view of `n` (`coalesced_changes` below reads
 this as: only the net difference between consecutive snapshots matters). -/
-theorem step_word (P : Params) (ok : P.OrderOK) (h : List Item) (wf : HistWF h) (it : Item)
+theorem step_word (P : Params) (ok : P.WF) (h : List Item) (wf : HistWF h) (it : Item)
     (wit : it.WF) (n : Name) :
     let s := run P Sys.init h
     callsOf n (step P s it).w.cons.log = callsOf n s.w.cons.log ++
@@ -51,13 +52,13 @@ theorem step_word (P : Params) (ok : P.OrderOK) (h : List Item) (wf : HistWF h) 
   intro s
   have inv := (run_spec P ok n h Sys.init (inv_init P) wf).2.1
   have := congrArg Prod.snd (step_at P ok s inv it wit n).2.2.2.2
-  simpa [CState.at] using this
+  simpa [CState.at, CState.toOld, CState0.at] using this
 
 /-- The per-name log is a word of the lifecycle automaton `(init inherit* close)*` (init only when
 nothing is live, inherit only from the live object — which is its recorded predecessor and has the
 same kind —, close only of the live object), and the object the log leaves live is the consumer's
 view of the last snapshot. -/
-theorem log_is_lifecycle_word (P : Params) (ok : P.OrderOK) (h : List Item) (wf : HistWF h) (n : Name) :
+theorem log_is_lifecycle_word (P : Params) (ok : P.WF) (h : List Item) (wf : HistWF h) (n : Name) :
     Auto.run none (callsOn P h n) =
       some (view P (specFinal n 0 false none h).1 (specFinal n 0 false none h).2) := by
   rw [exactly_once P ok h wf n]
@@ -65,7 +66,7 @@ theorem log_is_lifecycle_word (P : Params) (ok : P.OrderOK) (h : List Item) (wf 
 
 /-- Every call in the log is sane: `init`/`close` have no predecessor, every `inherit` has a
 predecessor **of the same kind**, and a call panicked iff the object itself chose to. -/
-theorem calls_sane (P : Params) (ok : P.OrderOK) (h : List Item) (wf : HistWF h) (c : Call)
+theorem calls_sane (P : Params) (ok : P.WF) (h : List Item) (wf : HistWF h) (c : Call)
     (hc : c ∈ (run P Sys.init h).w.cons.log) : c.Sane P := by
   have hm : c ∈ callsOn P h c.name := by
     unfold callsOn callsOf
@@ -77,7 +78,7 @@ theorem calls_sane (P : Params) (ok : P.OrderOK) (h : List Item) (wf : HistWF h)
 
 /-- The consumer's maps hold, for every name, exactly its view of the registry, in the map the
 kind selects; the registry holds `specFinal`; the watcher is attached iff an `attach` occurred. -/
-theorem live_eq_snapshot (P : Params) (ok : P.OrderOK) (h : List Item) (wf : HistWF h) (n : Name)
+theorem live_eq_snapshot (P : Params) (ok : P.WF) (h : List Item) (wf : HistWF h) (n : Name)
     (s : Nat) :
     held P h s n =
       (view P (specFinal n 0 false none h).1 (specFinal n 0 false none h).2).filter
@@ -88,14 +89,14 @@ theorem live_eq_snapshot (P : Params) (ok : P.OrderOK) (h : List Item) (wf : His
   have h1 : (run P Sys.init h).w.attached = (specFinal n 0 false none h).1 := congrArg Prod.fst fin
   have h2 : (run P Sys.init h).ents.get n = (specFinal n 0 false none h).2 := congrArg Prod.snd fin
   refine ⟨?_, h2⟩
-  simp only [CState.at, slotView] at hs
+  simp only [CState.at, CState.toOld, CState0.at, slotView] at hs
   rw [← h1, ← h2]
   exact hs
 
 /-- Readable corollary: after a history that ends with a snapshot `cfg` (watcher attached before):
 a name with a valid entry of a kind in the consumer's categories is live with exactly that kind and
 body; a name that is absent from `cfg` is not live in any map. -/
-theorem live_eq_last_snapshot (P : Params) (ok : P.OrderOK) (h : List Item) (cfg : Config)
+theorem live_eq_last_snapshot (P : Params) (ok : P.WF) (h : List Item) (cfg : Config)
     (wf : HistWF (h ++ [.snap cfg])) (hatt : Item.attach ∈ h) (n : Name) :
     (∀ k b, cfg.get n = some (some (k, b)) → P.filter (P.cat k) = true →
         ∃ g, held P (h ++ [.snap cfg]) (P.slot k) n = some ⟨g, k, b⟩) ∧
@@ -156,7 +157,7 @@ theorem live_eq_last_snapshot (P : Params) (ok : P.OrderOK) (h : List Item) (cfg
 
 /-- `watcher.entities` (the anchored state next to `ObjectRegistry.entities`) is the watcher's view
 of the registry after every history. -/
-theorem watcher_entities_eq (P : Params) (ok : P.OrderOK) (h : List Item) (wf : HistWF h) (n : Name) :
+theorem watcher_entities_eq (P : Params) (ok : P.WF) (h : List Item) (wf : HistWF h) (n : Name) :
     (run P Sys.init h).w.wents.get n =
       view P (specFinal n 0 false none h).1 (specFinal n 0 false none h).2 := by
   have w := run_winv P ok h Sys.init (inv_init P) (winv_init P) wf n
@@ -170,7 +171,7 @@ theorem watcher_entities_eq (P : Params) (ok : P.OrderOK) (h : List Item) (wf : 
 /-- If a snapshot leaves the registry's object for `n` as it is (same kind and body, or absent
 before and after, or a yaml that is rejected), no call is made on `n` and the consumer's maps are
 unchanged at `n`. -/
-theorem untouched_of_same_registry (P : Params) (ok : P.OrderOK) (h : List Item) (wf : HistWF h)
+theorem untouched_of_same_registry (P : Params) (ok : P.WF) (h : List Item) (wf : HistWF h)
     (cfg : Config) (wc : cfg.WF) (n : Name)
     (hsame : regNext (run P Sys.init h).g ((run P Sys.init h).ents.get n) (cfg.get n) =
       (run P Sys.init h).ents.get n) :
@@ -185,16 +186,16 @@ theorem untouched_of_same_registry (P : Params) (ok : P.OrderOK) (h : List Item)
   rw [hsame] at h4 h5
   rw [wordStep_self, List.append_nil] at h5
   refine ⟨?_, ?_, h4⟩
-  · have := congrArg Prod.snd h5; simpa [CState.at] using this
+  · have := congrArg Prod.snd h5; simpa [CState.at, CState.toOld, CState0.at] using this
   · intro sl
     have a := congrFun (congrArg Prod.fst h5) sl
     have b := congrFun (inv.store n) sl
-    simp only [CState.at] at a b
+    simp only [CState.at, CState.toOld, CState0.at] at a b
     rw [a, b]
 
 /-- `unchanged_untouched`: a name whose entry has the kind and body of its live object is left
 alone — same object (same generation) afterwards, no Init / Inherit / Close. -/
-theorem unchanged_untouched (P : Params) (ok : P.OrderOK) (h : List Item) (wf : HistWF h)
+theorem unchanged_untouched (P : Params) (ok : P.WF) (h : List Item) (wf : HistWF h)
     (cfg : Config) (wc : cfg.WF) (n : Name) (p : Entity)
     (hreg : (run P Sys.init h).ents.get n = some p)
     (hcfg : cfg.get n = some (some (p.kind, p.body))) :
@@ -209,7 +210,7 @@ theorem unchanged_untouched (P : Params) (ok : P.OrderOK) (h : List Item) (wf : 
   exact this
 
 /-- Re-applying the snapshot that was just applied changes nothing at any name. -/
-theorem reapply_noop (P : Params) (ok : P.OrderOK) (h : List Item) (cfg : Config)
+theorem reapply_noop (P : Params) (ok : P.WF) (h : List Item) (cfg : Config)
     (wf : HistWF (h ++ [.snap cfg])) (n : Name) :
     callsOn P (h ++ [.snap cfg] ++ [.snap cfg]) n = callsOn P (h ++ [.snap cfg]) n ∧
       ∀ sl, held P (h ++ [.snap cfg] ++ [.snap cfg]) sl n = held P (h ++ [.snap cfg]) sl n := by
@@ -235,11 +236,11 @@ theorem reapply_noop (P : Params) (ok : P.OrderOK) (h : List Item) (cfg : Config
 same flags are made on `n`, and the same object is live for `n`. In particular a panic in one
 object's Init / Inherit / Close never prevents the other objects of the snapshot from being
 reconciled (their words are still the specification's). -/
-theorem panic_isolated (P : Params) (ok : P.OrderOK) (h : List Item) (wf : HistWF h)
+theorem panic_isolated (P : Params) (ok : P.WF) (h : List Item) (wf : HistWF h)
     (f : Op → Name → Entity → Bool) (n : Name) (hagree : ∀ op e, f op n e = P.panics op n e) :
     callsOn { P with panics := f } h n = callsOn P h n ∧
       ∀ s, held { P with panics := f } h s n = held P h s n := by
-  have ok' : Params.OrderOK { P with panics := f } := ok
+  have ok' : Params.WF { P with panics := f } := ⟨ok.order, ok.slots⟩
   refine ⟨?_, fun s => ?_⟩
   · rw [exactly_once _ ok' h wf n, exactly_once P ok h wf n]
     exact specWord_congr { P with panics := f } P n (fun _ => rfl) hagree h 0 false none
@@ -248,12 +249,12 @@ theorem panic_isolated (P : Params) (ok : P.OrderOK) (h : List Item) (wf : HistW
 
 /-- Whatever panics — including the calls on `n` itself — the reconciliation is the same: the same
 calls (up to their panic flag) on the same objects, the same live set, the same registry. -/
-theorem panics_do_not_change_reconciliation (P : Params) (ok : P.OrderOK) (h : List Item)
+theorem panics_do_not_change_reconciliation (P : Params) (ok : P.WF) (h : List Item)
     (wf : HistWF h) (f : Op → Name → Entity → Bool) (n : Name) :
     (callsOn { P with panics := f } h n).map Call.erase = (callsOn P h n).map Call.erase ∧
       (∀ s, held { P with panics := f } h s n = held P h s n) ∧
       (run { P with panics := f } Sys.init h).ents.get n = (run P Sys.init h).ents.get n := by
-  have ok' : Params.OrderOK { P with panics := f } := ok
+  have ok' : Params.WF { P with panics := f } := ⟨ok.order, ok.slots⟩
   refine ⟨?_, fun s => ?_, ?_⟩
   · rw [exactly_once _ ok' h wf n, exactly_once P ok h wf n]
     exact specWord_erase { P with panics := f } P n (fun _ => rfl) h 0 false none
@@ -267,7 +268,7 @@ theorem panics_do_not_change_reconciliation (P : Params) (ok : P.OrderOK) (h : L
 it) and the new one initialised (if the consumer wants it) — never an `inherit`; the registry holds
 the new object. With both kinds in the consumer's categories the calls are `close old, init new`;
 across categories the old consumer closes and the new consumer initialises. -/
-theorem kind_change_close_init (P : Params) (ok : P.OrderOK) (h : List Item) (wf : HistWF h)
+theorem kind_change_close_init (P : Params) (ok : P.WF) (h : List Item) (wf : HistWF h)
     (cfg : Config) (wc : cfg.WF) (n : Name) (p : Entity) (k : Kind) (b : Body)
     (hatt : (run P Sys.init h).w.attached = true)
     (hreg : (run P Sys.init h).ents.get n = some p)
@@ -299,7 +300,7 @@ theorem kind_change_close_init (P : Params) (ok : P.OrderOK) (h : List Item) (wf
 /-- Only the last snapshot matters for what is live: whatever snapshots `mid` were or were not
 delivered in between (changes coalesced by the syncer), after `cfg` a valid entry is live with its
 kind and body, and an absent name is not live. (`step_word` gives the calls: the net difference.) -/
-theorem coalesced_changes (P : Params) (ok : P.OrderOK) (h mid : List Item) (cfg : Config)
+theorem coalesced_changes (P : Params) (ok : P.WF) (h mid : List Item) (cfg : Config)
     (wfA : HistWF (h ++ mid ++ [.snap cfg])) (wfB : HistWF (h ++ [.snap cfg]))
     (hatt : Item.attach ∈ h) (n : Name) :
     (∀ k b, cfg.get n = some (some (k, b)) → P.filter (P.cat k) = true →
@@ -314,6 +315,43 @@ theorem coalesced_changes (P : Params) (ok : P.OrderOK) (h mid : List Item) (cfg
   obtain ⟨gB, hB⟩ := b.1 k bd hc hf
   exact ⟨gA, gB, hA, hB⟩
 
+/-! ## the traffic controller's namespace bookkeeping -/
+
+/-- After every history the namespace object of a namespaced consumer exists iff one of its maps
+holds something (so `Update* / Delete*` never fail with "namespace not found" for a live object, and
+`_cleanSpace` only ever removes an empty namespace), and every stored key is in one of the two maps. -/
+theorem namespace_iff_nonempty (P : Params) (ok : P.WF) (h : List Item) (wf : HistWF h)
+    (hn : P.namespaced = true) :
+    (run P Sys.init h).w.cons.ns = !(run P Sys.init h).w.cons.store.isEmpty := by
+  have inv := (run_spec P ok 0 h Sys.init (inv_init P) wf).2.1
+  exact (inv.ns hn).1
+
+/-- Removing an object of one category — even the last one, which makes `_cleanSpace` look at the
+namespace — does not touch what the consumer holds in its **other** map: in every reachable state
+(`NsOK`), for every delete-loop step on an entity of slot `P.slot x.2.kind`, every key of another
+slot keeps its object. (With `live_eq_snapshot` this is also true of whole histories; this lemma
+is the local statement about `DeletePipeline / DeleteTrafficGate + _cleanSpace`.) -/
+theorem delete_keeps_other_category (P : Params) (ok : P.WF) (c : CState) (j : NsOK P c)
+    (x : Name × Entity) (s' : Nat) (m : Name) (hs : s' ≠ P.slot x.2.kind) :
+    (delStep P c x).store.get (s', m) = c.store.get (s', m) := by
+  have e := (delStep_sim P ok c x j).2
+  have e' : (delStep P c x).store = (delStep0 P c.toOld x).store := by
+    have := congrArg CState0.store e; simpa [CState.toOld] using this
+  rw [e']
+  unfold delStep0
+  simp only [CState.toOld]
+  cases c.store.get (P.slot x.2.kind, x.1) with
+  | none => rfl
+  | some old =>
+    simp only [Map.get_del]
+    have : ¬ ((s', m) = (P.slot x.2.kind, x.1)) := by
+      intro eq; injection eq with e1 _; exact hs e1
+    simp [this]
+
+theorem reachable_nsOK (P : Params) (ok : P.WF) (h : List Item) (wf : HistWF h) :
+    NsOK P (run P Sys.init h).w.cons :=
+  (run_spec P ok 0 h Sys.init (inv_init P) wf).2.1.ns
+
 /-! ## Go map iteration order is irrelevant -/
 
 /-- Two histories that differ only in the order in which each snapshot's map is iterated. -/
@@ -321,9 +359,9 @@ inductive ItemPerm : Item → Item → Prop
   | snap {c c' : Config} : c'.Perm c → ItemPerm (.snap c) (.snap c')
   | attach : ItemPerm .attach .attach
 
-theorem order_irrelevant (P : Params) (ok : P.OrderOK)
+theorem order_irrelevant (P : Params) (ok : P.WF)
     (o' : Nat → Nat → Map Name Entity → Map Name Entity)
-    (ok' : Params.OrderOK { P with order := o' }) (h h' : List Item)
+    (ok' : Params.WF { P with order := o' }) (h h' : List Item)
     (hp : List.Forall₂ ItemPerm h h') (wf : HistWF h) (n : Name) :
     callsOn { P with order := o' } h' n = callsOn P h n ∧
       ∀ s, held { P with order := o' } h' s n = held P h s n := by
@@ -392,7 +430,8 @@ theorem source_facts :
 (category 1); every `inherit` panics. -/
 private def Pex : Params :=
   { cat := fun k => if k < 2 then 1 else 3, filter := fun c => c == 1, slot := fun _ => 0,
-    createChecks := true, panics := fun op _ _ => op == .inherit, order := fun _ _ m => m }
+    createChecks := true, namespaced := false, panics := fun op _ _ => op == .inherit,
+    order := fun _ _ m => m }
 
 /-- name 7: appear (kind 0), change of body, change of kind inside the category, change of kind
 across categories, disappear, reappear; name 8 unchanged all the time. -/
@@ -405,7 +444,7 @@ private def hex : List Item :=
    .snap [(8, some (1, 5))],
    .snap [(7, some (0, 0)), (8, some (1, 5))]]
 
-example : Pex.OrderOK := fun _ _ m => List.Perm.refl m
+example : Pex.WF := ⟨fun _ _ m => List.Perm.refl m, fun h => by simp [Pex] at h⟩
 example : HistWF hex := by
   intro it hit
   simp only [hex, List.mem_cons, List.mem_nil_iff, or_false] at hit
@@ -457,5 +496,36 @@ example :
       (stepUnrepaired Pex) Sys.init
     s.w.cons.store.get (0, 7) = some ⟨0, 0, 0⟩ ∧ s.ents.get 7 = none ∧
       callsOf 7 s.w.cons.log = [⟨.init, 7, ⟨0, 0, 0⟩, none, false⟩] := by decide
+
+/-- The traffic consumer's shape: pipelines (kind 4) in slot 0, gates in slot 1, namespaced. -/
+private def Ptr : Params :=
+  { cat := fun k => if k == 4 then 2 else 3, filter := fun c => c == 2 || c == 3,
+    slot := fun k => if k == 4 then 0 else 1, createChecks := false, namespaced := true,
+    panics := fun _ _ _ => false, order := fun _ _ m => m }
+
+example : Ptr.WF := ⟨fun _ _ m => List.Perm.refl m, fun _ k => by
+  by_cases h : k = 4 <;> simp [Ptr, h]⟩
+
+/-- pipeline 7 and gate 8 share the namespace; the last gate disappears, the pipeline stays, is then
+changed (inherited) and finally removed (closed); the namespace is gone only at the very end. -/
+private def htr : List Item :=
+  [.attach, .snap [(7, some (4, 0)), (8, some (2, 0))], .snap [(7, some (4, 0))],
+   .snap [(7, some (4, 1))], .snap []]
+
+example : callsOn Ptr htr 7 =
+    [⟨.init, 7, ⟨0, 4, 0⟩, none, false⟩, ⟨.inherit, 7, ⟨2, 4, 1⟩, some ⟨0, 4, 0⟩, false⟩,
+     ⟨.close, 7, ⟨2, 4, 1⟩, none, false⟩] := by decide
+example : (run Ptr Sys.init (htr.take 3)).w.cons.ns = true ∧ held Ptr (htr.take 3) 0 7 = some ⟨0, 4, 0⟩ ∧
+    (run Ptr Sys.init htr).w.cons.ns = false := by decide
+
+/-- A `_cleanSpace` that probes `trafficGates` twice (seeded change C20-m2) drops the namespace with
+a live pipeline inside as soon as the last gate goes: the invariant `NsOK` is what excludes it. -/
+def cleanSpaceGatesTwice (c : CState) : CState :=
+  let serverLen := (c.store.filter (fun e => e.1.1 == 1)).length
+  let pipelineLen := (c.store.filter (fun e => e.1.1 == 1)).length
+  if serverLen + pipelineLen == 0 then { store := [], log := c.log, ns := false } else c
+
+example : (cleanSpaceGatesTwice ⟨[((0, 7), ⟨0, 4, 0⟩)], [], true⟩).store = [] ∧
+    (cleanSpace ⟨[((0, 7), ⟨0, 4, 0⟩)], [], true⟩).store = [((0, 7), ⟨0, 4, 0⟩)] := by decide
 
 end EgVerif.C20
